@@ -11,6 +11,7 @@ import (
 	"fmt"
 	"math/rand"
 	"os"
+	"reflect"
 	"regexp"
 	"sort"
 	"strings"
@@ -358,8 +359,81 @@ func cmdCfgDoc(args []string) {
 	} else {
 		w.Emit(e)
 	}
+	// ---- every option of every configurable lint of the registry (the tree's own ones, of all three kinds): a section that sets the
+	// option to another value of its type must reach the instance that is about to run - what the lint hands out through Configure()
+	// holds the new value after MaybeConfigure.  (An option that never reaches the instance cannot change the lint's behaviour.)
+	reach := 0
+	if exErr == nil {
+		if tree, err := toml.LoadBytes(ex); err == nil {
+			for _, k := range []string{"cert", "crl", "ocsp"} {
+				for _, l := range lintsOf(g, k) {
+					sub, ok := tree.Get(l.Name).(*toml.Tree)
+					if !l.Cfgable || !ok {
+						continue
+					}
+					for _, opt := range sub.Keys() {
+						var lit string
+						var want interface{}
+						switch v := sub.Get(opt).(type) {
+						case bool:
+							lit, want = fmt.Sprint(!v), !v
+						case int64:
+							lit, want = fmt.Sprint(v+3), v+3
+						case uint64:
+							lit, want = fmt.Sprint(v+3), int64(v+3)
+						case string:
+							lit, want = fmt.Sprintf("%q", v+"x"), v+"x"
+						default:
+							continue
+						}
+						cfg, err := lint.NewConfigFromString(fmt.Sprintf("[%s]\n%s = %s\n", l.Name, opt, lit))
+						if err != nil {
+							continue
+						}
+						var inst interface{}
+						switch k {
+						case "cert":
+							inst = l.C.Lint()
+						case "crl":
+							inst = l.R.Lint()
+						default:
+							inst = l.O.Lint()
+						}
+						e := ev.M{"ev": "Reach", "lint": l.Name, "kind": k, "option": opt, "configured": false, "reached": false, "got": ""}
+						if cerr := cfg.MaybeConfigure(inst, l.Name); cerr == nil {
+							e["configured"] = true
+							if c2, ok := inst.(lint.Configurable); ok {
+								rv := reflect.Indirect(reflect.ValueOf(c2.Configure()))
+								if rv.Kind() == reflect.Struct {
+									if f := rv.FieldByName(opt); f.IsValid() && f.CanInterface() {
+										got := f.Interface()
+										e["got"] = fmt.Sprint(got)
+										switch w2 := want.(type) {
+										case bool:
+											e["reached"] = got == w2
+										case int64:
+											e["reached"] = fmt.Sprint(got) == fmt.Sprint(w2)
+										case string:
+											e["reached"] = got == w2
+										}
+									} else {
+										e["reached"] = true // the option lives somewhere this probe cannot look: nothing is claimed
+										e["got"] = "(not a field of the value handed out by Configure)"
+									}
+								} else {
+									e["reached"] = true
+								}
+							}
+						}
+						w.Emit(e)
+						reach++
+					}
+				}
+			}
+		}
+	}
 	w.Close()
-	ev.WriteJSON(out("summary.json"), ev.M{"documents": len(docs), "runs": runs, "observations_not_pass": errs, "sample": ev.M{"toml": cdToml(docs[len(docs)/2])}})
+	ev.WriteJSON(out("summary.json"), ev.M{"documents": len(docs), "runs": runs, "options_probed": reach, "observations_not_pass": errs, "sample": ev.M{"toml": cdToml(docs[len(docs)/2])}})
 }
 
 func mustRe(p string) *regexp.Regexp { return regexp.MustCompile(p) }
